@@ -465,6 +465,7 @@ class X12Writer(X12Base):
         @type src_file_obj: string or open file object
         """
         self.fd_out = None
+        self.need_to_close = False
         try:
             res = src_file_obj.write
             # isinstance(f, file)
@@ -473,7 +474,8 @@ class X12Writer(X12Base):
             if src_file_obj == '-':
                 self.fd_out = sys.stdout
             else:
-                self.fd_out = open(src_file_obj, mode='w', encoding='ascii')
+                self.fd_out = open(src_file_obj, mode='w', encoding='ascii', newline='')
+                self.need_to_close = True
         #assert self.fd_out.encoding in ('ascii', 'US-ASCII'), 'Outfile file must have ASCII encoding, is %s' % (self.fd_out.encoding)
         X12Base.__init__(self)
         #terms = set([seg_term, ele_term, subele_term, repetition_term])
@@ -489,6 +491,10 @@ class X12Writer(X12Base):
         """
         self._popToLoop('ISA')
         X12Base.Close(self)
+        if self.need_to_close:
+            # a file this writer opened itself: nothing reaches it for certain until it is closed
+            self.fd_out.close()
+            self.need_to_close = False
 
     def Write(self, seg_data):
         """
